@@ -238,20 +238,21 @@ Theorem C05_iri_string_element : forall n raw, as_iri (Text.FStr raw) = Some (So
 Proof. exact (elem_loads_string jr_tables layout_of registry load_switch tl_ActivityTypes tl_ActorTypes tl_LinkTypes). Qed.
 (* WHEN a string is an IRI (asIRI of decoding_json.go as repaired, as_iri of Model/JsonDec.v over the net/url model of
    Model/UrlU.v, compared with the real asIRI by Cases_C01_asiri): its text - no quote, backslash or byte < 0x20 - reads
-   scheme "://" rawhost rawpath ["?" query] ["#" fragment]  (AsIriP.iri_reading: scheme letters-first, no control byte
-   before the "#", a host that url.parseHost accepts and that is not empty once decoded, a path that is empty or begins
+   scheme "://" authority rawpath ["?" query] ["#" fragment]  (AsIriP.iri_reading: scheme letters-first, no control byte
+   before the "#", an authority - optional userinfo up to its last "@", then a host or an IP literal with optional port -
+   that url.parseAuthority accepts and whose host is not empty once decoded, a path that is empty or begins
    with "/", every "%" of host, path and fragment followed by two hex digits; bytes >= 0x80, spaces and escapes of any
    byte are allowed) *)
-Theorem C05_as_iri_accepts : forall raw sch rh rp qo fo,
-  fj_has_special (fj_unescape raw) = false -> iri_reading (fj_unescape raw) sch rh rp qo fo ->
+Theorem C05_as_iri_accepts : forall raw sch au rp qo fo,
+  fj_has_special (fj_unescape raw) = false -> iri_reading (fj_unescape raw) sch au rp qo fo ->
   as_iri (Text.FStr raw) = Some (Some (fj_unescape raw)).
 Proof. exact as_iri_accepts. Qed.
 Theorem C05_as_iri_accepted : forall raw s,
   as_iri (Text.FStr raw) = Some (Some s) ->
   s = fj_unescape raw /\ fj_has_special s = false /\
-  exists u sch rh rp qo fo, url_classify_u s = UValid u /\ ustruct s sch rh rp qo fo /\
-    u_scheme u = lower sch /\ pct_decode rh = Some (u_host u) /\ u_host u <> [] /\ pct_decode rp = Some (u_path u) /\
-    u_query u = IriNfP.opt_or_nil qo.
+  exists u sch up rh rp qo fo, url_classify_u s = UValid u /\ ustruct s sch up rh rp qo fo /\
+    u_scheme u = lower sch /\ pct_decode rh = Some (u_host u) /\ parse_host rh = Some (u_host u) /\ u_host u <> [] /\
+    pct_decode rp = Some (u_path u) /\ u_query u = IriNfP.opt_or_nil qo.
 Proof. exact as_iri_accepted. Qed.
 (* the model extends the test of the plain grammar of Model/Url.v, which the decoder model used before *)
 Theorem C05_as_iri_of_plain : forall raw u, url_classify (fj_unescape raw) = UValid u ->
@@ -273,13 +274,15 @@ Example C05_as_iri_examples :
   as_iri (Text.FStr (B "https://example.com/a%20b?q=%C3%A9&r=a+b")) = Some (Some (B "https://example.com/a%20b?q=%C3%A9&r=a+b")) /\
   as_iri (Text.FStr (B "https://example.com#me")) = Some (Some (B "https://example.com#me")) /\
   as_iri (Text.FStr (B "https://example.com/%zz")) = Some None /\
-  as_iri (Text.FStr (B "https://u@example.com/")) = None /\
+  as_iri (Text.FStr (B "https://u@example.com/")) = Some (Some (B "https://u@example.com/")) /\
+  as_iri (Text.FStr (B "https://[::1]:8443/x")) = Some (Some (B "https://[::1]:8443/x")) /\
+  as_iri (Text.FStr (B "https://[::1/x")) = Some None /\
   (exists sch rh rp qo fo, iri_reading (B "https://example.com/a%20b?q=%C3%A9#f") sch rh rp qo fo).
 Proof.
   repeat split; try (vm_compute; reflexivity).
   exists (B "https"), (B "example.com"), (B "/a%20b"), (Some (B "q=%C3%A9")), (Some (B "f")).
   constructor; try (vm_compute; reflexivity); try (vm_compute; tauto).
-  - exists (B "example.com"). split; [vm_compute; reflexivity|discriminate].
+  - exists None, (B "example.com"). split; [vm_compute; reflexivity|discriminate].
   - right. eexists. reflexivity.
   - eexists. vm_compute. reflexivity.
   - vm_compute. discriminate.
